@@ -379,6 +379,12 @@ def run(ck):
     who_callers(ck, P)
     raw_reads(ck, P)
     header_capture(ck, P)
+    from . import c20 as _c20
+    _d = P.fn(decoders.DISPATCH)
+    _regs = decoders.mode_regions(_d, 20) if _d else None
+    if _d and _regs:
+        # the invariant behind the justified expect("name/comm out of bounds")
+        _c20.length_reset(ck, _d, _regs, "MODE/header-done")
     margins(ck, P)
     sane_who(ck, P)
     len_modes(ck, P)
